@@ -195,32 +195,43 @@ PLAYBACK_RE = re.compile(r"(/// Test generated for harness `([^`]+)`.*?\n#\[test
 MAX_CEX = 6
 
 
-def kani_cex_print(scr, ob, logdir):
-    """step 1 (parallelisable): ask Kani for concrete values of the refuted harness"""
-    h = ob.get("cex") or ob["h"]   # plain twin with explicit assertions, where the obligation is a contract harness
-    short = h.split("::")[-1]
+def kani_cex_print_all(scr, obs, logdir):
+    """step 1: ONE cargo-kani invocation asks for concrete values of all refuted harnesses (plain twin where the
+    obligation is a contract harness). returns [(ob, info, tests)]"""
+    hs = {}
+    for ob in obs:
+        hs[ob.get("cex") or ob["h"]] = ob
+    cap = max(ob["cap"] for ob in obs)
     cmd = ["cargo", "kani"] + KANI_FLAGS + ["-Z", "concrete-playback", "--concrete-playback=print",
-           "--target-dir", kani_target(), "--harness-timeout", "%ds" % ob["cap"],
-           "--output-format", "terse", "--exact", "--harness", h]
-    rc, out, secs = sh(cmd, cwd=scr.repo, timeout=ob["cap"] + 600,
-                       out=os.path.join(logdir, "cex-%s.log" % short))
-    tests = []
+           "--target-dir", kani_target(), "--harness-timeout", "%ds" % cap, "-j", str(min(len(hs), 6)),
+           "--output-format", "terse", "--exact"]
+    for h in hs:
+        cmd += ["--harness", h]
+    rc, out, secs = sh(cmd, cwd=scr.repo, timeout=cap + 900, out=os.path.join(logdir, "cex.log"))
+    out = re.sub(r"(?m)^Thread \d+: ?", "", out)
+    per = {h: [] for h in hs}
     for m in PLAYBACK_RE.finditer(out):
         block, hname, tname = m.group(1), m.group(2), m.group(3)
+        if hname in per:
+            per[hname].append((tname, block))
+    jobs = []
+    for h, ob in hs.items():
+        tests = per[h]
         # Kani prints identical value vectors once, under the first check they witness (possibly a cover),
         # so cover-labelled tests are kept as candidates; assertion-labelled ones are tried first
-        tests.append((tname, block))
-    tests.sort(key=lambda tb: 1 if "Check for `cover`" in tb[1] else 0)
-    info = {"obligation": ob["h"], "counterexample_harness": h,
-            "verifier_output": "\n".join(out.split("\n")[-80:]), "tests": [], "confirmed": False}
-    if not tests:
-        info["note"] = "verifier printed no concrete values"
-    elif ob.get("no_native_replay"):
-        info["tests"] = [dict(name=t, code=b) for t, b in tests[:3]]
-        info["note"] = ("harness draws values inside stubs; Kani's concrete values are reported but cannot be "
-                        "re-executed without the stubs")
-        tests = []
-    return info, tests
+        tests.sort(key=lambda tb: 1 if "Check for `cover`" in tb[1] else 0)
+        info = {"obligation": ob["h"], "counterexample_harness": h, "tests": [], "confirmed": False,
+                "verifier_output": "\n".join(b for _, b in tests[:4])[:6000]}
+        if not tests:
+            info["note"] = "verifier printed no concrete values"
+            info["verifier_output"] = "\n".join(out.split("\n")[-60:])
+        elif ob.get("no_native_replay"):
+            info["tests"] = [dict(name=t, code=b) for t, b in tests[:3]]
+            info["note"] = ("harness draws values inside stubs; Kani's concrete values are reported but cannot be "
+                            "re-executed without the stubs")
+            tests = []
+        jobs.append((ob, info, tests))
+    return jobs
 
 
 def kani_cex_playback(scr, jobs, logdir):
@@ -249,7 +260,7 @@ def kani_cex_playback(scr, jobs, logdir):
             failed = bool(re.search(r"test result: FAILED|panicked at", pout))
             ok = bool(re.search(r"test result: ok. 1 passed", pout))
             vals = decode_vals([b for (n, b) in tests if n == t][0])
-            info["tests"].append(dict(name=t, concrete_values=vals,
+            info["tests"].append(dict(name=t, concrete_values=vals, code=[b for (n, b) in tests if n == t][0],
                                       native_replay="FAILS on the real code (counterexample confirmed)" if failed
                                       else ("passes on the real code (these values do not violate the clause natively)"
                                             if ok else "could not be executed"),
@@ -412,7 +423,56 @@ def selected(obs, tier, only):
     return out
 
 
+def replay(pid, P, path, scr, logdir):
+    """bin/check <ID> --replay <file>: re-execute a recorded violation against /repo's current tree.
+    exit 1 = it still fails (VIOLATION line), exit 0 = it no longer fails, exit 2 = cannot be replayed."""
+    info = json.load(open(path))
+    scr.prepare()
+    ob_name = info.get("obligation", "")
+    if ob_name.startswith("bounded:"):
+        name = ob_name.split(":", 1)[1]
+        robs = [r for r in P.get("rt", []) if r["name"] == name]
+        binpath, err = build_rt(scr, logdir)
+        if not robs or binpath is None:
+            log("cannot replay:", err or "unknown bounded check")
+            return 2
+        r = run_rt(binpath, robs[0], int(info.get("seed", 0) or 0), info.get("tier", "quick"), logdir)
+        log("bounded replay %s: %s, %d failing input(s)" % (name, r["status"], len(r.get("failures", []))))
+        if r["status"] == "refuted":
+            print("VIOLATION property=%s replay=%s" % (pid, path))
+            return 1
+        return 0 if r["status"] == "discharged" else 2
+    if ob_name.startswith("verus:"):
+        vname = ob_name.split(":")[1]
+        vobs = [v for v in P.get("verus", []) if v["name"] == vname]
+        if not vobs:
+            return 2
+        r = run_verus(scr, vobs[0], logdir)
+        bad = [it for it in r["items"] if it["status"] == "refuted"]
+        for it in bad:
+            log("verus replay: %s refuted: %s" % (it["name"], it.get("detail", "")[:200]))
+        if bad:
+            print("VIOLATION property=%s replay=%s no-failing-input-found" % (pid, path))
+            return 1
+        return 0 if r["items"] else 2
+    obs = [o for o in P.get("kani", []) if o["h"] == ob_name]
+    tests = [(x["name"], x["code"]) for x in info.get("tests", []) if x.get("code")]
+    if not obs or not tests:
+        log("nothing executable recorded in", path)
+        return 2
+    inf = {"tests": [], "confirmed": False}
+    kani_cex_playback(scr, [(obs[0], inf, tests)], logdir)
+    for x in inf["tests"]:
+        log("native replay of %s: %s" % (x["name"], x["native_replay"]))
+    if inf["confirmed"]:
+        print("VIOLATION property=%s replay=%s" % (pid, path))
+        return 1
+    return 0
+
+
 def run_property(pid, P, tier, seed, scr, logdir, a, t0):
+    if a.replay:
+        return replay(pid, P, a.replay, scr, logdir)
     rep = scr.prepare()
     log("scratch copy of %s at %s; injected %d child modules" % (REPO, scr.repo, len(rep["appended_child_modules"])))
     kobs = selected(P.get("kani", []), tier, a.only)
@@ -421,6 +481,7 @@ def run_property(pid, P, tier, seed, scr, logdir, a, t0):
     records = []     # proof obligations
     bounded = []     # bounded stand-ins
     violations = []  # (obligation, replay info)
+    spurious_obs = []  # refuted by the verifier, but none of its concrete vectors fails natively
 
     with ThreadPoolExecutor(max_workers=3) as ex:
         fk = ex.submit(run_kani, scr, kobs, a.jobs, logdir) if kobs else None
@@ -450,11 +511,7 @@ def run_property(pid, P, tier, seed, scr, logdir, a, t0):
     refuted = [ob for ob in kobs if kres[ob["h"]]["status"] == "refuted"]
     jobs = []
     if refuted:
-        with ThreadPoolExecutor(max_workers=MAX_CEX) as ex:
-            futs = [ex.submit(kani_cex_print, scr, ob, logdir) for ob in refuted[:MAX_CEX]]
-            for ob, f in zip(refuted[:MAX_CEX], futs):
-                info, tests = f.result()
-                jobs.append((ob, info, tests))
+        jobs = kani_cex_print_all(scr, refuted[:MAX_CEX], logdir)
         kani_cex_playback(scr, jobs, logdir)
         for ob in refuted[MAX_CEX:]:
             jobs.append((ob, {"obligation": ob["h"], "confirmed": False, "tests": [],
@@ -465,8 +522,22 @@ def run_property(pid, P, tier, seed, scr, logdir, a, t0):
         info.update(property=pid, clause=ob["clause"], failed_checks=r["detail"], tier=tier,
                     function_under_contract=ob.get("fn", ""))
         path = os.path.join(VERIF, "replays", "%s-%s.json" % (pid, ob["h"].split("::")[-1]))
+        # every concrete vector the verifier produced was executed natively and none violates the clause on the
+        # real code: the counterexample lives in the verifier's model only (e.g. CBMC's inexact f64 % f64,
+        # DESIGN.md 1.3). That is not a violation of the property; it is reported as undecided unless another
+        # obligation or the bounded stand-in of this run produces a failing input.
+        executed = [x for x in info.get("tests", []) if "native_replay" in x]
+        spurious = (not info["confirmed"]) and executed and all(x["native_replay"].startswith("passes") for x in executed)
+        info["spurious_in_native_replay"] = bool(spurious)
         json.dump(info, open(path, "w"), indent=1)
-        violations.append((ob["h"].split("::")[-1], path, info["confirmed"]))
+        if spurious:
+            spurious_obs.append((ob["h"].split("::")[-1], path))
+        elif (not tests and not executed and "limited to" in info.get("note", "") and spurious_obs
+              and not any(v[2] for v in violations)):
+            # beyond the extraction limit, and everything examined so far lives in the verifier's model only
+            spurious_obs.append((ob["h"].split("::")[-1], path))
+        else:
+            violations.append((ob["h"].split("::")[-1], path, info["confirmed"]))
     for v, r in zip(vobs, vres):
         for it in r["items"]:
             if it["status"] == "refuted":
@@ -500,7 +571,7 @@ def run_property(pid, P, tier, seed, scr, logdir, a, t0):
                             print("KNOWN-FINDING: property=%s %s" % (pid, txt[0]["text"]))
                     if r["status"] == "refuted":
                         path = os.path.join(VERIF, "replays", "%s-bounded-%s.json" % (pid, rob["name"]))
-                        json.dump(dict(property=pid, obligation="bounded:" + rob["name"], what=rob.get("what", ""),
+                        json.dump(dict(property=pid, obligation="bounded:" + rob["name"], seed=seed, tier=tier, what=rob.get("what", ""),
                                        failing_inputs=r["failures"][:20],
                                        replay="rtcheck %s --replay <input>" % rob["name"]), open(path, "w"), indent=1)
                         violations.append(("bounded-" + rob["name"], path, True, r["failures"]))
@@ -518,7 +589,17 @@ def run_property(pid, P, tier, seed, scr, logdir, a, t0):
     n_und = sum(1 for r in records if r["status"] == "undecided") + sum(1 for b in bounded if b["status"] == "undecided")
     write_evidence(pid, P, tier, seed, records, bounded, wall, violations=len(real_viol),
                    deferred=[ob["h"] for ob in P.get("kani", []) if ob not in kobs])
+    if spurious_obs and not real_viol:
+        for nm, pth in spurious_obs:
+            log("UNDECIDED: %s refuted by the verifier but its counterexample does not replay on the real code (%s)" % (nm, pth))
+        write_evidence(pid, P, tier, seed, records, bounded, wall, violations=0,
+                       deferred=[ob["h"] for ob in P.get("kani", []) if ob not in kobs],
+                       note="obligations refuted in the verifier's model only: " + ", ".join(n for n, _ in spurious_obs))
+        return 2
     if real_viol:
+        for nm, pth in spurious_obs:
+            # other evidence of a violation exists in this run: report these too, marked as not replayed
+            print("VIOLATION property=%s replay=%s no-failing-input-found" % (pid, pth))
         for v in real_viol:
             print("VIOLATION property=%s replay=%s%s" % (pid, v[1], "" if v[2] else " no-failing-input-found"))
         return 1
